@@ -81,6 +81,11 @@ func genEncoded(r *vu.Rng) []byte {
 }
 
 func gen(r *vu.Rng, i int) []string {
+	if i < 256 {
+		// every single byte once: pins each table entry to the RFC 7541 code
+		s := vu.Hex([]byte{byte(i)})
+		return []string{"enc " + s, "encspec " + s, "len " + s}
+	}
 	switch r.Intn(10) {
 	case 0, 1, 2:
 		s := vu.Hex(genString(r))
@@ -195,6 +200,26 @@ func refEncode(s []byte) []byte {
 	return out
 }
 
+// rfcEncode encodes s bit by bit with the RFC 7541 Appendix B table of rfc_table.go
+// (independent of package hpack's tables).
+func rfcEncode(s []byte) []byte {
+	var bits []byte
+	for _, c := range s {
+		code, n := rfcCodes[c], rfcLens[c]
+		for k := int(n) - 1; k >= 0; k-- {
+			bits = append(bits, byte(code>>uint(k))&1)
+		}
+	}
+	for len(bits)%8 != 0 {
+		bits = append(bits, 1)
+	}
+	out := make([]byte, len(bits)/8)
+	for i, b := range bits {
+		out[i/8] |= b << uint(7-i%8)
+	}
+	return out
+}
+
 // oracleEncode: C04 encode direction, stated directly on the implementation.
 func oracleEncode(s []byte, res string, o *vu.Out) {
 	if res == "panic" {
@@ -204,6 +229,14 @@ func oracleEncode(s []byte, res string, o *vu.Out) {
 	enc := hpack.AppendHuffmanString(nil, string(s))
 	if want := refEncode(s); !bytes.Equal(enc, want) {
 		o.Fail("", fmt.Sprintf("AppendHuffmanString(%x)=%x, bit-by-bit reference %x", s, enc, want))
+	}
+	// canonical = the RFC 7541 code, not merely a self-consistent one
+	rfc := rfcEncode(s)
+	if !bytes.Equal(enc, rfc) {
+		o.Fail("", fmt.Sprintf("AppendHuffmanString(%x)=%x is not the RFC 7541 Appendix B encoding %x", s, enc, rfc))
+	}
+	if got, err := hpack.HuffmanDecodeToString(rfc); err != nil || got != string(s) {
+		o.Fail("", fmt.Sprintf("HuffmanDecode of the RFC 7541 encoding %x of %x = %x, %v", rfc, s, got, err))
 	}
 	if n := hpack.HuffmanEncodeLength(string(s)); n != uint64(len(enc)) {
 		o.Fail("", fmt.Sprintf("HuffmanEncodeLength(%x)=%d but encoding has %d bytes", s, n, len(enc)))
